@@ -74,6 +74,9 @@ func (c *childResult) add(res *caseResult) {
 			c.AtLimit["frames_exactly_at_write_limit"]++
 		}
 	}
+	for k, n := range res.PrefixPairs {
+		c.AtLimit["pair|"+k] += int64(n)
+	}
 	for _, l := range res.BatchLens {
 		if l > c.MaxBatch[res.BatchMax] {
 			c.MaxBatch[res.BatchMax] = l
@@ -355,6 +358,24 @@ func TestVerifC18(t *testing.T) {
 	r.Set("max_written_batch_len_seen_by_batch_limit", limits(total.MaxBatch))
 	r.Set("max_uncompressed_batch_len_seen_by_batch_limit", limits(total.MaxUncomp))
 	r.Set("frames_exactly_at_write_limit", total.AtLimit["frames_exactly_at_write_limit"])
+	pairs := map[string]int64{}
+	for k, n := range total.AtLimit {
+		if strings.HasPrefix(k, "pair|") {
+			pairs[k[5:]] = n
+		}
+	}
+	r.Set("v9plus_compact_prefix_width_pairs_batches", pairs) // "<codec>:<prefix bytes before>><after compression>"
+	if os.Getenv("C18_ONLY") == "" && !total.TimedOut {
+		var unseen []string
+		for _, p := range expectedPairs(thorough) {
+			if pairs[p] == 0 {
+				unseen = append(unseen, p)
+			}
+		}
+		if len(unseen) > 0 {
+			ev.InfraError("the compact-prefix sub-grid became vacuous: width pairs never exercised: %v", unseen)
+		}
+	}
 	r.Set("cases_in_grid", len(cases))
 	r.Set("cases_shape_not_applicable", total.Skipped)
 	r.Set("produce_frames_decoded", total.Frames)
